@@ -258,6 +258,18 @@ def c01_cases(tier, rng):
         cancel = (rng.choice(["src", "src", "dst"]), rng.randint(0, 8)) if rng.random() < 0.25 else None
         yield SysCase(cfg, bytes(rng.getrandbits(8) for _ in range(size)), faults, extra_sm=rng.choice([0, 0, 1]),
                       reject_round=reject, max_rounds=200, tag="c01", cancel=cancel)
+    # null / modular checksum (acknowledged mode, loss only): a lost range of two segments whose first retransmission is
+    # lost again - only the lost-segment bookkeeping stands between a hole in the file and a reported success
+    for ck in (15, 0):
+        for imm in (False, True):
+            for nseg in (4, 5):
+                for first in (1, 2):
+                    cfg = campaign.rand_cfg(rng, mode=0, req_mode=None, cktype=ck, imm_nak=imm, max_seg=4, max_packet=64,
+                                            ack_limit=5, nak_limit=5, dst_over=None)
+                    data = bytes(rng.getrandbits(8) | 1 for _ in range(4 * nseg))
+                    for relost in (nseg + 2, nseg + 3):
+                        yield SysCase(cfg, data, [Fault("s2d", first, "drop"), Fault("s2d", first + 1, "drop"),
+                                                  Fault("s2d", relost, "drop")], max_rounds=300, tag="c01")
     # the sender cancels while the Metadata PDU (and possibly more) is lost: the EOF (cancel) is the first PDU to arrive
     for mode in (0, 0, 1):
         for at in (1, 2, 3):
